@@ -238,6 +238,11 @@ STANDIN_BOUND = {
     "iter": "29 token streams x 3 thresholds: find_numbers_iter == find_numbers",
     "orule": "11 English sentences with 'o' next to words, punctuation and no-break spaces",
     "ncase": "11 words with non-ASCII letters, those letters capitalised",
+    "phrases": "per language about 2 800 integers below 10^12 (all of 0..1200, 1900..2030, structured multiples of 10^3/10^6/10^9, 1 500 random "
+               "ones from VERIF_SEED; pt below 10^6; de without the known 'eine' cases) spelled by tools/spell.py: text2digits == digits and the phrase "
+               "inside a sentence is rewritten as one number; for C16 with one and two zero words in front",
+    "ordinals": "ordinals spelled by tools/spell.py (masculine singular): ranks 1..1200 plus structured and random ranks below 10^6 for en, fr, de, it, nl; "
+                "1..1999 for es (without the bare 'segundo'), 1..999 for pt: text2digits == digits + marker, and the same inside a sentence",
     "rows": "every word of the grammar tables of all seven languages, alone, through text2digits",
     "zeros": "k in {1,2,3,6} zero words before 4-8 phrases per language",
     "meta": "sentences harvested from /repo's own test literals under the metamorphic relation of the property",
@@ -260,6 +265,41 @@ def standin(pid):
         ran.append({"search": m, "bound": STANDIN_BOUND[m], "cases": w.get("cases"), "found": w.get("kind") == "standin"})
         if w.get("kind") == "standin":
             return w, ran
+    if pid == "C04":
+        seed = int(os.environ.get("VERIF_SEED", "0") or 0)
+        total = 0
+        for code in ["en", "fr", "es", "pt", "it", "de", "nl"]:
+            tsv = os.path.join(VERIF, "build", f"ordinals_{code}.tsv")
+            with open(tsv, "w", encoding="utf-8") as f:
+                subprocess.run([sys.executable, os.path.join(VERIF, "tools", "spell.py"), str(seed), "ordinals", code], stdout=f, text=True, timeout=300)
+            p = subprocess.run([wbin("standin"), "phrases", tsv], capture_output=True, text=True, timeout=900)
+            try:
+                w = json.loads(p.stdout.strip().split("\n")[-1])
+            except Exception:
+                continue
+            total += w.get("cases", 0) or 0
+            if w.get("kind") == "call":
+                ran.append({"search": "ordinals/" + code, "bound": STANDIN_BOUND["ordinals"], "cases": total, "found": True})
+                return w, ran
+        ran.append({"search": "ordinals", "bound": STANDIN_BOUND["ordinals"], "cases": total, "found": False})
+    if pid in ("C01", "C16"):
+        # composition: whole spelled numbers from the independent spellers of tools/spell.py through the real validator and rewriter
+        seed = int(os.environ.get("VERIF_SEED", "0") or 0)
+        total = 0
+        for code in ["en", "fr", "es", "pt", "it", "de", "nl"]:
+            tsv = os.path.join(VERIF, "build", f"phrases_{code}.tsv")
+            with open(tsv, "w", encoding="utf-8") as f:
+                subprocess.run([sys.executable, os.path.join(VERIF, "tools", "spell.py"), str(seed), code], stdout=f, text=True, timeout=300)
+            p = subprocess.run([wbin("standin"), "phrases", tsv] + (["zeros"] if pid == "C16" else []), capture_output=True, text=True, timeout=900)
+            try:
+                w = json.loads(p.stdout.strip().split("\n")[-1])
+            except Exception:
+                continue
+            total += w.get("cases", 0) or 0
+            if w.get("kind") == "call":
+                ran.append({"search": "phrases/" + code, "bound": STANDIN_BOUND["phrases"], "cases": total, "found": True})
+                return w, ran
+        ran.append({"search": "phrases", "bound": STANDIN_BOUND["phrases"], "cases": total, "found": False})
     if pid in ("C01", "C04", "C08", "C16", "C14"):
         for code in ["en", "fr", "es", "pt", "it", "de", "nl"]:
             w = find_witness(pid, {"unit": "lang_" + code, "fn": "", "kind": "standin"})
